@@ -7,7 +7,7 @@ class Contract:
     def __init__(self, file, qualname, params, returns=None, requires=(), ensures=(), raises=None,
                  ensures_exc=None, modifies=(), loops=None, pure=False, fresh_result=False,
                  props=(), assumed=False, note="", types=None, locals_types=None, inline_ok=False,
-                 allow_exc=(), shards=1):
+                 allow_exc=(), shards=1, cuts=None):
         self.file = file
         self.qualname = qualname
         self.params = dict(params)  # name -> Ty (or ('opt', Ty))
@@ -26,6 +26,8 @@ class Contract:
         self.locals_types = dict(locals_types or {})
         self.allow_exc = tuple(allow_exc)
         self.shards = shards
+        # program-point assertions acting as abstraction barriers: 'statement source prefix[@n]' -> [spec exprs]
+        self.cuts = dict(cuts or {})
 
     @property
     def key(self):
